@@ -24,9 +24,17 @@ Proof.
 Qed.
 
 (** a comparison whose operands are atoms *)
-Lemma parse_targets_atoms (rest : list (cmpop * expr)) :
-  parse_targets (flat_map (fun cb => [TCmp (fst cb); TAtom (snd cb)]) rest) = rest.
-Proof. induction rest as [|[c b] t IH]; cbn; [reflexivity|]. rewrite IH. reflexivity. Qed.
+Lemma split_cmp_targets (rest : list (cmpop * expr)) : forall cur,
+  split_cmp (flat_map (fun cb => [TCmp (fst cb); TAtom (snd cb)]) rest) cur
+  = (rev cur, map (fun cb => (fst cb, [TAtom (snd cb)])) rest).
+Proof.
+  induction rest as [|[c b] t IH]; intros cur; [reflexivity|].
+  cbn. rewrite (IH [TAtom b]). reflexivity.
+Qed.
+Lemma split_cmp_atoms (rest : list (cmpop * expr)) b0 :
+  split_cmp (TAtom b0 :: flat_map (fun cb => [TCmp (fst cb); TAtom (snd cb)]) rest) []
+  = ([TAtom b0], map (fun cb => (fst cb, [TAtom (snd cb)])) rest).
+Proof. cbn [split_cmp]. rewrite split_cmp_targets. reflexivity. Qed.
 Lemma no_op_targets (rest : list (cmpop * expr)) :
   forallb no_op (flat_map (fun cb => [TCmp (fst cb); TAtom (snd cb)]) rest) = true.
 Proof. induction rest as [|[c b] t IH]; cbn; [reflexivity|exact IH]. Qed.
@@ -36,7 +44,10 @@ Proof.
   intros Hne. unfold parse_disj.
   rewrite (split_on_no_op BOr) by (cbn; apply no_op_targets). cbn [rev app map fold_bop fold_left].
   unfold parse_conj. rewrite (split_on_no_op BAnd) by (cbn; apply no_op_targets). cbn [rev app map fold_bop fold_left].
-  cbn [parse_inv parse_cmp]. rewrite parse_targets_atoms. destruct rest; [contradiction|reflexivity].
+  cbn [parse_inv]. unfold parse_cmp. rewrite split_cmp_atoms. cbn [rev app fst snd].
+  destruct rest as [|cb rest']; [contradiction|]. cbn [map parse_operand parse_arith fst snd]. f_equal.
+  destruct cb as [c b]. cbn [fst snd]. f_equal.
+  rewrite map_map. rewrite <- (map_id rest') at 2. apply map_ext. intros [c' b']. reflexivity.
 Qed.
 
 Lemma closed_safe_top e : closed e = true -> paren_safe_at true e = paren_safe_at false e.
@@ -129,8 +140,11 @@ Proof.
     split; intros S; try intros _; apply andb_true_iff in S as [S1 S2]; rewrite (B1 S1), (B2 S2); reflexivity.
   - destruct IHe1 as [_ B1], IHe2 as [_ B2]. unfold norm in B1, B2.
     split; intros S; try intros _; apply andb_true_iff in S as [S1 S2]; rewrite (B1 S1), (B2 S2); reflexivity.
-  - destruct IHe1 as [_ B1], IHe2 as [_ B2]. unfold norm in B1, B2.
-    split; intros S; try intros _; apply andb_true_iff in S as [S1 S2]; rewrite (B1 S1), (B2 S2); reflexivity.
+  - (* EFloorDiv *)
+    destruct IHe1 as [A1 _], IHe2 as [A2 _].
+    split; intros S; try intros _;
+      (apply andb_true_iff in S as [S S2]; apply andb_true_iff in S as [S S1]; apply andb_true_iff in S as [C1 C2];
+       rewrite (A1 S1 C1), (A2 S2 C2); reflexivity).
   - destruct IHe as [_ B]. unfold norm in B. split; intros S; try intros _; rewrite (B S); reflexivity.
 Qed.
 
